@@ -364,8 +364,61 @@ pub fn histories(depth: usize, thorough: bool) -> Vec<Vec<Ev>> {
     out
 }
 
+/// A call that arrives while the command server is still replaying its log at start-up: it was
+/// appended after the definition, so it is served (`slow_ms`: how long the replayed definition
+/// takes to compile; `fillers`: frames between the definition and the end of the log; `delay_ms`:
+/// when the call is appended after the restart began).
+pub fn run_replay_window(slow_ms: u64, fillers: usize, delay_ms: u64) -> (Vec<F>, String) {
+    let mut fs = vec![];
+    let w = World::start(Serve { commands: true, ..Default::default() });
+    let ctx = w.ctx_a;
+    let label = format!("call {} ms into a restart whose replay holds a definition taking {} ms and {} later frames", delay_ms, slow_ms, fillers);
+    let def = w.append_c("slow.define", ctx, Some(&format!("sleep {}ms\n{{run: {{|frame| \"pong\"}}}}", slow_ms)), None);
+    for k in 0..fillers {
+        w.append_c(&format!("filler{}", k % 3), ctx, None, None);
+    }
+    let c0 = w.append_c("slow.call", ctx, None, None);
+    if wait_terminal(&w, "slow", &c0.id).is_none() {
+        fs.push(F { kind: "c19.harness".into(), msg: format!("{}: the control call before the restart was not served", label) });
+        w.stop();
+        return (fs, "harness".into());
+    }
+    // restart of the command server, without waiting for it to come up
+    if let Some(h) = w.commands_task.lock().unwrap().take() {
+        h.abort();
+        let _ = w.rt.block_on(h);
+    }
+    let (s, e) = (w.store.clone(), xs::nu::Engine::new().expect("nu engine"));
+    let h = w.rt.spawn(async move {
+        let _ = xs::commands::serve(s, e).await;
+    });
+    *w.commands_task.lock().unwrap() = Some(h);
+    std::thread::sleep(Duration::from_millis(delay_ms));
+    let c1 = w.append_c("slow.call", ctx, None, None);
+    match w.wait(|f| (f.topic == "slow.complete" || f.topic == "slow.error") && meta_str(f, "frame_id") == Some(c1.id.to_string()), 15.0) {
+        None => fs.push(F { kind: "c19.no_terminal".into(), msg: format!("{}: the call got no terminal event (it arrived after the definition and was never served)", label) }),
+        Some(t) => {
+            if t.topic != "slow.complete" || meta_str(&t, "command_id") != Some(def.id.to_string()) {
+                fs.push(F { kind: "c19.stamp".into(), msg: format!("{}: terminal event {:?} {:?}", label, t.topic, t.meta) });
+            }
+        }
+    }
+    // the call from before the restart is not executed again
+    std::thread::sleep(Duration::from_millis(60));
+    let n0 = stamped(&w.snapshot(), &c0.id).iter().filter(|f| f.topic == "slow.complete").count();
+    if n0 != 1 {
+        fs.push(F { kind: "c19.replayed_call".into(), msg: format!("{}: the call from before the restart has {} complete events", label, n0) });
+    }
+    w.stop();
+    (fs, "window".into())
+}
+
 pub fn worker() {
     common::worker_loop(move |job| {
+        if let Some(wv) = job.get("replay_window") {
+            let (fs, outcome) = run_replay_window(wv[0].as_u64().unwrap(), wv[1].as_u64().unwrap() as usize, wv[2].as_u64().unwrap());
+            return json!({"findings": fs.iter().map(|f| json!({"kind": f.kind, "msg": f.msg})).collect::<Vec<_>>(), "outcome": outcome});
+        }
         let (fs, outcome) = if job.get("program").is_some() {
             let p: Program = serde_json::from_value(job["program"].clone()).unwrap();
             run_program(&p)
@@ -383,6 +436,10 @@ pub fn run(tier: &str, report: &mut Report) {
     let hs = histories(if thorough { 4 } else { 3 }, thorough);
     let mut jobs: Vec<Value> = progs.iter().map(|p| json!({"program": p})).collect();
     jobs.extend(hs.iter().map(|h| json!({"history": h})));
+    // calls arriving inside the replay window of a restart
+    for (slow, fillers, delay) in [(300u64, 0usize, 100u64), (300, 3, 30), (150, 120, 60), (0, 150, 0)] {
+        jobs.push(json!({"replay_window": [slow, fillers, delay]}));
+    }
     let results = common::pool_map("c19", &[], common::ncpu(), jobs.clone());
     let mut outcomes: HashSet<String> = HashSet::new();
     for (j, r) in jobs.iter().zip(results.iter()) {
@@ -394,7 +451,7 @@ pub fn run(tier: &str, report: &mut Report) {
         for f in r["findings"].as_array().cloned().unwrap_or_default() {
             report.add_violation(Violation {
                 property: "C19".into(),
-                signature: format!("E5:{}:{}", if j.get("program").is_some() { "program" } else { "history" }, f["kind"].as_str().unwrap_or("")),
+                signature: format!("E5:{}:{}", if j.get("program").is_some() { "program" } else if j.get("replay_window").is_some() { "window" } else { "history" }, f["kind"].as_str().unwrap_or("")),
                 message: f["msg"].as_str().unwrap_or("").to_string(),
                 replay: json!({"engine": "c19", "job": j}),
             });
@@ -409,12 +466,14 @@ pub fn run(tier: &str, report: &mut Report) {
     report.cov("distinct_outcomes", json!(outcomes.len()));
     report.cov("exhaustive", json!(true));
     report.cov("samples", json!([script(&progs[progs.len() / 3]), format!("{:?}", hs.get(hs.len() / 2))]));
-    report.cov("explanation", json!("(a) every command script of {8 output shapes: nothing, scalar, lists of 1-3 values of mixed types, range, lazy stream} x {explicit .append with colliding meta} x {eager runtime error} x {return_options none/suffix/ttl/ephemeral}: one call each, per-call oracle; (b) every history of define / invalid define / call / two overlapping calls / restart of the command server over 2 names x 2 contexts up to the depth that ends in an observation: each call is served by the latest valid definition of its own context exactly once, results carry the call's id in their content (no mixing), a per-call env counter must read 0 (no leak), calls in a context without a definition produce nothing"));
+    report.cov("explanation", json!("(a) every command script of {8 output shapes: nothing, scalar, lists of 1-3 values of mixed types, range, lazy stream} x {explicit .append with colliding meta} x {eager runtime error} x {return_options none/suffix/ttl/ephemeral}: one call each, per-call oracle; (b) every history of define / invalid define / call / two overlapping calls / restart of the command server over 2 names x 2 contexts up to the depth that ends in an observation: each call is served by the latest valid definition of its own context exactly once, results carry the call's id in their content (no mixing), a per-call env counter must read 0 (no leak), calls in a context without a definition produce nothing; (c) calls appended inside the replay window of a restart of the command server (a replayed definition that takes 0-300 ms to compile, 0-150 later frames, call 0-100 ms after the restart began) are served, the call from before the restart is not executed again"));
 }
 
 pub fn replay(v: &Value) -> i32 {
     let j = &v["job"];
-    let (fs, outcome) = if j.get("program").is_some() {
+    let (fs, outcome) = if let Some(wv) = j.get("replay_window") {
+        run_replay_window(wv[0].as_u64().unwrap(), wv[1].as_u64().unwrap() as usize, wv[2].as_u64().unwrap())
+    } else if j.get("program").is_some() {
         let p: Program = serde_json::from_value(j["program"].clone()).unwrap();
         println!("{}", script(&p));
         run_program(&p)
